@@ -387,7 +387,7 @@ def r5_2_epclear(ctx):
 
 
 # ---- R2.4 corner <-> right: every successor whose move touches a rook home corner has lost that right
-from wa.cond import refuted_edges
+from wa.cond import refuted_edges, specialise
 from . import chess
 
 
@@ -427,13 +427,31 @@ def r2_4(ctx):
         # the move this successor makes: arguments of move_piece(&mut L, from, to)
         mp = [(loc, ev) for loc, evs in site.events.items() for ev in evs if ev[0] == "call" and ev[1] == MOVE_PIECE and ev[2] == 0]
         takes = {}
+        take_blocks = set()
         for loc, evs in site.events.items():
             for ev in evs:
                 if ev[0] == "call" and ev[1] == TAKE_AWAY and ev[2] == 0:
+                    take_blocks.add(loc[0])
                     v = strip_refs(ex.call_args(loc[0])[1])
                     if v[0] == "agg":
                         takes.setdefault(v[2], set()).add(loc[0])
-        if not mp or not takes:
+
+        def takes_under(hyp, right):
+            """(blocks that remove `right` on paths consistent with hyp, refuted edges): the right
+            named at a call may be a value selected by the hypothesis (`match square {..}` in a
+            helper), so it is read on the body specialised under the hypothesis."""
+            b2, ex2, ref = specialise(b, hyp, variants)
+            blocks = set()
+            for bb in take_blocks:
+                if bb not in b2.reachable:
+                    continue
+                v = strip_refs(ex2.call_args(bb)[1])
+                if v[0] == "named":
+                    v = v[2]
+                if v[0] == "agg" and v[2] == right:
+                    blocks.add(bb)
+            return blocks, ref
+        if not mp or not take_blocks:
             continue   # castling / promotion successors: rights handled by R2.6 / inherited
         if len(mp) != 1:
             continue   # castling successors move king and rook: their rights are R2.6's obligations
@@ -455,8 +473,8 @@ def r2_4(ctx):
                     hyp[("field", ("deref", ("arg", site.src_local)), castling_flag(right))] = ("eq", True)
                 if role == "from":
                     hyp[kind_e] = ("ne", ("King", "Pawn"))   # kings: own instance below; pawns never stand on a corner
-                ref = refuted_edges(b, ex, hyp, variants)
-                hits = _reach_publish(site, takes.get(right, set()), ref)
+                tk, ref = takes_under(hyp, right)
+                hits = _reach_publish(site, tk, ref)
                 n += 1
                 ctx.ob("%s:%s==%s->%s" % (site.name, role, corner, right), not hits, b.where(hits[0][0]) if hits else b.where(site.loc),
                        "a successor whose move goes %s %s can be published%s without take_away_castling_rights(%s): the right outlives its rook" % (
@@ -467,8 +485,8 @@ def r2_4(ctx):
                 hyp = {kind_e: ("eq", "King"), col_e: ("eq", colour)}
                 if site.src_local is not None:
                     hyp[("field", ("deref", ("arg", site.src_local)), castling_flag(right))] = ("eq", True)
-                ref = refuted_edges(b, ex, hyp, variants)
-                hits = _reach_publish(site, takes.get(right, set()), ref)
+                tk, ref = takes_under(hyp, right)
+                hits = _reach_publish(site, tk, ref)
                 n += 1
                 ctx.ob("%s:king(%s)->%s" % (site.name, colour, right), not hits, b.where(hits[0][0]) if hits else b.where(site.loc),
                        "a %s king move can be published without removing %s" % (colour, right) if hits else
